@@ -542,7 +542,7 @@ def concurrent_subscriptions(vs, bound, part=0, parts=1):
                     probs.append(("concurrent_subscription_differs", vname, f"concurrent:{tag}", [list(scripts["A"]), list(scripts["B"])],
                                   f"iterator {tag} (frames {list(scripts[tag])}) run concurrently with another subscription on the same client, schedule {list(choices)}: "
                                   f"outcome/yielded/sent {got!r} ({o[1]}), alone and per the model {want!r}"))
-        ex = Explorer(run, bound=bound, max_runs=4000)
+        ex = Explorer(run, bound=bound, max_runs=100000)
         ex.run_all(on_result)
         if ex.capped:
             probs.append(("harness_capped", vname, "concurrent", [list(scripts["A"]), list(scripts["B"])], "schedule cap hit"))
@@ -702,7 +702,7 @@ def expected_for(script):
 def main(tier):
     rep = Report("C13", tier, "model_checking")
     genpkg.warm()
-    n = 4 if tier == "quick" else 6
+    n = 5 if tier == "quick" else 7
     work = genpkg.scratch_dir("verif-c13-")
     try:
         ok, out, (gen_states, distinct_states) = run_tlc(n, os.path.join(work, "tlc"))
@@ -722,10 +722,10 @@ def main(tier):
         nchunks = 32
         chunks = [states[i::nchunks] for i in range(nchunks)]
         cases = [(pkg_root, pkg_names, ch, "default") for ch in chunks if ch]
-        small = [s for s in states if len(s["hist"]) <= (2 if tier == "quick" else 3)]
+        small = [s for s in states if len(s["hist"]) <= (3 if tier == "quick" else 4)]
         cases += [(pkg_root, pkg_names, small[i::8], "product") for i in range(8) if small[i::8]]
         cases += [(pkg_root, pkg_names, [], f"differential:{i}/12") for i in range(12)]
-        cbound = 2 if tier == "quick" else 3
+        cbound = 3 if tier == "quick" else 4
         cases += [(pkg_root, pkg_names, [], f"concurrent:{i}/16/{cbound}") for i in range(16)]
         replays = schedules = conc_outcomes = 0
         for (st, r) in pool.run_cases(worker, cases, timeout=3000):
